@@ -2308,7 +2308,7 @@ SPEC_FUNCS = {
     'wsum': _wrap(specs.wsum), 'tlen': _wrap(specs.tlen), 'tcoef': _wrap(specs.tcoef), 'tlit': _wrap(specs.tlit),
     'thaszero': _wrap(specs.thaszero), 'tmaxabs': _wrap(specs.tmaxabs), 'tnonneg': _wrap(specs.tnonneg),
     'tunit': _wrap(specs.tunit), 'holds': _wrap(specs.holds), 'osat': _wrap(specs.osat), 'olen': _wrap(specs.olen),
-    'osnoc': _wrap(specs.osnoc), 'otake': _wrap(specs.otake), 'omaxabs': _wrap(specs.omaxabs),
+    'oappc': _wrap(specs.oappc), 'osnoc': _wrap(specs.osnoc), 'otake': _wrap(specs.otake), 'omaxabs': _wrap(specs.omaxabs),
     'ohaszero': _wrap(specs.ohaszero), 'onormal': _wrap(specs.onormal),
     'mkcon': _wrap(specs.mkcon), 'con_terms': _wrap(specs.Con.terms), 'con_op': _wrap(specs.Con.op), 'con_value': _wrap(specs.Con.value),
     'cmp_op': lambda eng, node, op, a, b: specs.cmp_op(_term(op), toz(a), toz(b)),
